@@ -176,6 +176,12 @@ func (g *gen) chanType(name string, typs []types.Type) (types.Type, types.ChanDi
 	if !ok {
 		return nil, types.SendRecv, fmt.Errorf("%s, the argument, %s, is not of type chan of chan", name, typs[0])
 	}
+	if chanTyp.Dir() == types.SendOnly {
+		return nil, types.SendRecv, fmt.Errorf("%s, the argument, %s, is a send only channel, which cannot be received from", name, typs[0])
+	}
+	if chanOfChanTyp.Dir() != types.RecvOnly {
+		return nil, types.SendRecv, fmt.Errorf("%s, the argument, %s, is not a channel of receive only channels", name, typs[0])
+	}
 	elemType := chanOfChanTyp.Elem()
 	return elemType, chanTyp.Dir(), nil
 }
@@ -190,6 +196,9 @@ func (g *gen) chanVariantTypes(name string, typs []types.Type) ([]types.Type, []
 		chanTyp, ok := typs[i].(*types.Chan)
 		if !ok {
 			return nil, nil, fmt.Errorf("%s, the argument, %s, is not of type chan", name, typs[0])
+		}
+		if chanTyp.Dir() == types.SendOnly {
+			return nil, nil, fmt.Errorf("%s, the argument, %s, is a send only channel, which cannot be received from", name, typs[i])
 		}
 		chanTyps[i] = chanTyp.Elem()
 		if i != 0 {
@@ -213,6 +222,9 @@ func (g *gen) sliceOfChanType(name string, typs []types.Type) (types.Type, types
 	sliceOfChanTyp, ok := sliceTyp.Elem().(*types.Chan)
 	if !ok {
 		return nil, types.SendRecv, fmt.Errorf("%s, the argument, %s, is not of type slice of chan", name, typs[0])
+	}
+	if sliceOfChanTyp.Dir() == types.SendOnly {
+		return nil, types.SendRecv, fmt.Errorf("%s, the argument, %s, is a slice of send only channels, which cannot be received from", name, typs[0])
 	}
 	elemType := sliceOfChanTyp.Elem()
 	return elemType, sliceOfChanTyp.Dir(), nil
